@@ -69,7 +69,7 @@ TEXTS = {
         "technique": "differential property-based testing (wrapper vs wrapped type)",
     },
     "C18": {
-        "level": "Part a is exhaustive over the run-time shape-set API (16 sets x 15 bodies x 5 carriers). Part b drives derived receivers with supports(..) over all bodies (see DESIGN.md).",
+        "level": "Part a is exhaustive over the run-time shape-set API (16 sets x 15 bodies x 5 carriers). Part b compiles receivers declaring only supports(..) - a covering family of 96 FromDeriveInput word subsets in the quick tier, all 2^11 in the thorough tier, plus all 32 FromVariant subsets - and runs each on all 352 bodies (4 struct styles with 0..3 fields, all 341 enums of 0..4 variants over the four variant styles, odd variants, a union): the number of shape errors must equal the documented table and the ShapeSet verdict.",
         "ref": "DESIGN.md section 3 C18",
         "note": "The documented table is four lines (tuple admits newtype, not the reverse).",
         "technique": "exhaustive enumeration against the documented table",
@@ -109,5 +109,11 @@ TEXTS = {
         "ref": "DESIGN.md section 3 C17",
         "note": "strsim is trusted; a tie between equal candidates is not a violation.",
         "technique": "property-based testing with an optimality oracle + feature on/off differential",
+    },
+    "C07": {
+        "level": "Negative-space generated-input search: 120 built-in conversion targets through all ten entry points on arbitrary meta items (oversized numbers, every literal kind, invisible groups, depth-64 nesting), and every receiver of three generated crates (~525 receivers: C01 option space, all magic-field subsets, supports(..) families, forward_attrs in all three forms) on arbitrary parseable items of every shape whose attributes range from well-formed lists to token soup; the oracle is that every call returns.",
+        "ref": "DESIGN.md section 3 C07",
+        "note": "Panics are observed with catch_unwind plus a hook that records the message; the thorough tier adds the libFuzzer target runtime_total where registered.",
+        "technique": "grammar-based fuzzing / property testing with a no-panic oracle",
     },
 }
